@@ -65,7 +65,7 @@ def l1_groups(tier):
         yield (f"I{op}", es)
     # constant sub-expressions folded at translation time inside a run-time expression
     fold_lits = [L("n", 7), L("n", -7), L("n", 3), L("n", -3), L("n", 1), L("n", 0), L("n", 2)]
-    for op in ["+", "-", "*", "/", "%", "&", "^", "|", "<<", ">>", "<", "<=", "==", "!="]:
+    for op in ["+", "-", "*", "/", "%", "&", "^", "|", "<<", ">>", "<", "<=", ">", ">=", "==", "!="]:
         es = []
         for x, y in itertools.product(fold_lits, repeat=2):
             if op in ("/", "%") and y[2] == 0:
@@ -73,11 +73,43 @@ def l1_groups(tier):
             if op in ("<<", ">>") and (y[2] < 0 or x[2] < 0):
                 continue
             folded = ("bin", op, x, y)
-            if op in ("<", "<=", "==", "!="):
+            if op in ("<", "<=", ">", ">=", "==", "!="):
                 es.append(("tern", folded, A("i"), B0("i")))
             else:
                 es.append(("bin", "+", A("i"), folded))
         yield (f"Ifold{op}", es)
+    # every comparison operator folded over less / equal / greater operand pairs of every comparable kind
+    cmp_pairs = {"D": [(0.5, 2.0), (2.0, 0.5), (1.5, 1.5), (-1.5, -1.5)], "s": [("a", "b"), ("b", "a"), ("ab", "ab"), ("", "")],
+                 "B": [(True, False), (False, True), (True, True), (False, False)]}
+    for kind, pairs in cmp_pairs.items():
+        ops = ("==", "!=") if kind == "B" else ("<", "<=", ">", ">=", "==", "!=")
+        yield (f"{kind}cmpfold", [("tern", ("bin", op, L(kind, x), L(kind, y)), A("i"), B0("i")) for op in ops for x, y in pairs])
+    yield ("Ecmpfold", [("tern", ("bin", op, L("E", x, f"VObj.M{x}"), L("E", y, f"VObj.M{y}")), A("i"), B0("i"))
+                        for op in ("==", "!=") for x, y in ((0, 1), (1, 1), (2, 1))])
+    # literal spellings decoded at translation time inside a run-time expression
+    import literals
+    str_spellings = ["\\b", "\\f", "\\n", "\\r", "\\t", "\\v", "\\0", "\\'", '\\"', "\\\\", "\\x41", "\\x7f", "\\x00",
+                     "\\xe9", "\\u0041", "\\u00e9", "\\u2028", "\\u{41}", "\\u{1F600}", "\\ud83d\\ude00", "\\q", "\\/",
+                     "a\\\nb", "\\0a", "x\\ty"]
+    es = []
+    for sp in str_spellings:
+        v = literals.js_string_body(sp)
+        if v is not None:
+            es.append(("bin", "+", A("s"), L("s", v, '"' + sp + '"')))
+            es.append(("bin", "+", L("s", v, "'" + sp + "'"), B0("s")))
+    yield ("LitS", es)
+    es = []
+    for sp in ["0x10", "0X1f", "0b101", "0B11", "0o17", "0O7", "1_000", "017", "08", "00", "0", "2147483647"]:
+        v = literals.js_number(sp)
+        if v is not None and v[0] == "int":
+            es.append(("bin", "+" if v[1] < 2147483647 else "&", A("i"), L("n", v[1], sp)))
+    yield ("LitI", es)
+    es = []
+    for sp in ["1e2", "1E2", ".5", "5.", "0.5e-1", "1_0.2_5", "0.0", "1e+1", "2.5e0", "1_0e1_0"]:
+        v = literals.js_number(sp)
+        if v is not None and v[0] == "float":
+            es.append(("bin", "+", A("d"), L("D", v[1], sp)))
+    yield ("LitD", es)
     yield ("Dfold", [("bin", "+", A("d"), ("bin", op, L("D", x), L("D", y))) for op in ("+", "-", "*", "/")
                      for x, y in ((0.5, 2.0), (-1.5, 0.5), (2.0, -1.5))])
     yield ("Sfold", [("bin", "+", A("s"), ("bin", "+", L("s", x), L("s", y))) for x, y in (("a", "b"), ("", "c"), ("%1", ""))] +
@@ -175,8 +207,9 @@ def l1_documents(tier, pack=12):
     """-> (doc id, source, [(sink object, sink prop, kind, expr)])"""
     k = 0
     for gname, es in l1_groups(tier):
-        for i in range(0, len(es), pack):
-            chunk = es[i:i + pack]
+        pk = 1 if gname.startswith("Lit") else pack      # a spelling qmluic rejects must not take others with it
+        for i in range(0, len(es), pk):
+            chunk = es[i:i + pk]
             sinks = []
             body = []
             for j, e in enumerate(chunk):
@@ -186,7 +219,7 @@ def l1_documents(tier, pack=12):
                 body.append(f"    VObj {{ id: t{j}; {prop}: {rv.show(e)} }}\n")
                 sinks.append((f"t{j}", prop, kind, e))
             src = DOC_HEAD + "".join(body) + "}\n"
-            yield (f"L1/{gname}/{i // pack}", src, sinks)
+            yield (f"L1/{gname}/{i // pk}", src, sinks)
             k += 1
 
 
@@ -357,8 +390,9 @@ def prepare_l1(vd, cid, src, sinks, pid, t):
 def judge_l1(t, prog, res):
     m = prog.meta
     if res["compile_error"]:
-        t.inc("programs_not_compiling")      # C16 owns compilability
-        t.lost.append({"id": m["cid"], "compile_error": res["compile_error"][-300:]})
+        # an accepted program whose generated code does not compile computes / does nothing at all
+        t.inc("programs_not_compiling")
+        t.violation("generated-code-does-not-compile", {"id": m["cid"], "source": m.get("source"), "compile_error": res["compile_error"][-700:]})
         return
     if res["crash"]:
         what = "hang:generated-code-does-not-terminate" if res["crash"].startswith("timeout") else \
@@ -421,8 +455,8 @@ def l2_programs(tier):
             k += 1
 
 
-def prepare_l2(vd, k, sk, wrapper, t):
-    r = progs.Renderer("value", wrapper)
+def prepare_l2(vd, k, sk, wrapper, t, label_style="const"):
+    r = progs.Renderer("value", wrapper, label_style)
     text, ast = r.program(sk)
     src = DOC_HEAD + f"    VObj {{\n        id: t\n        ri: {text}\n    }}\n}}\n"
     pid = f"Q{k}"
@@ -459,8 +493,9 @@ def ref_state(st):
 def judge_l2(t, prog, res):
     m = prog.meta
     if res["compile_error"]:
+        # an accepted program whose generated code does not compile computes / does nothing at all
         t.inc("programs_not_compiling")
-        t.lost.append({"id": m["k"], "compile_error": res["compile_error"][-300:]})
+        t.violation("generated-code-does-not-compile", {"id": m["k"], "source": m.get("source"), "compile_error": res["compile_error"][-700:]})
         return
     if res["crash"]:
         what = "hang:generated-code-does-not-terminate" if res["crash"].startswith("timeout") else \
@@ -556,14 +591,30 @@ def l3_skeletons(tier):
                         yield [("SW", [tuple(c) for c in clauses])] + after
 
 
+def l3_programs(tier):
+    for sk in l3_skeletons(tier):
+        yield sk, "const"
+    # case labels that span several basic blocks (?:, &&): every two-clause switch of the menu, and the
+    # three-clause ones over the first three bodies
+    bodies = [[], [("A",)], [("A",), ("B",)], [("B",)], [("R",)], [("I", "c", [("B",)]), ("A",)]]
+    for n, menu in ((2, bodies), (3, bodies[:3])):
+        for combo in itertools.product(menu, repeat=n):
+            for dpos in [None] + list(range(n)):
+                sw = ("SW", [("d" if i == dpos else "c", list(b)) for i, b in enumerate(combo)])
+                if sum(1 for lab, _b in sw[1] if lab == "c") < 2:
+                    continue
+                for style in ("ternary", "and"):
+                    yield [sw, ("A",)], style
+
+
 def shard_l3(shard, nshards, payload):
     vd = vc.worker_vdrive()
     t = vc.Tally()
     pl = []
-    for k, sk in enumerate(l3_skeletons(payload["tier"])):
+    for k, (sk, style) in enumerate(l3_programs(payload["tier"])):
         if k % nshards != shard:
             continue
-        x = prepare_l2(vd, 100000 + k, sk, "ret", t)
+        x = prepare_l2(vd, 100000 + k, sk, "ret", t, style)
         if x is None:
             continue
         if x[0] == "dyn":
